@@ -533,8 +533,10 @@ var frKfC08b = []frSpec{
 	{Stored: http.Header{"Cache-Control": {"s-maxage=60, max-age=0"}, "Expires": {"Thu, 01 Jan 1970 00:00:00 GMT"}}, Created: 1700000000, Now: 1700000059},
 }
 
+// frKfC09a: the former finding C09-a (normalizeEtag trimmed the CUTSET "W/": unquoted tags that differ
+// by leading W / characters compared equal and were answered 304), repaired in caching.normalizeEtag;
+// regression cases: none of these validators matches, the entry must be served in full.
 var frKfC09a = []frSpec{
-	// unquoted tags that differ by leading W / characters compare equal
 	{Stored: http.Header{"Etag": {"abc"}}, Created: 1700000000, Now: 1700000001, INM: "Wabc"},
 	{Stored: http.Header{"Etag": {"/abc"}}, Created: 1700000000, Now: 1700000001, INM: "abc"},
 	{Stored: http.Header{"Etag": {"Wabc"}}, Created: 1700000000, Now: 1700000001, INM: "W/abc-rr", Suf: "-rr"},
